@@ -39,3 +39,19 @@ add("C06",
                "Streams are bounded by 3*max+70 bytes; for parameters with max > 700 only boundary lengths are enumerated.",
     shards={"quick": 16, "thorough": 16},
     )
+
+add("C02",
+    engine="SEQ",
+    level="model_checking",
+    technique="explicit-state BFS over operation histories of the real commands with canonical-state de-duplication",
+    design_ref="DESIGN.md §4.1, §5 C02",
+    level_text="Breadth-first search to depth 3 (quick) / 4 (thorough) over {backup of an evolving source, backup through a stale handle, "
+               "forget of every non-empty subset, prune with 10/24 option vectors, clock ticks of 1 h and 24 h, duplicated index file, reversed listing} "
+               "from three initial repository states (empty; two snapshots one forgotten; plus an unreferenced pack). Every transition runs the real command on fresh handles; "
+               "in every distinct canonical state all live snapshots are read back through the API and through an independent decoder and compared with the source model, "
+               "marked packs must exist, and (thorough) check --read-data must be clean.",
+    level_note="Depth and alphabet are bounded as stated; the clock is the verif hook offset; canonical states drop random ids, so two stores that differ only in ids are merged. "
+               "Snapshots written by a stale handle are exempt until the next prune (that is C10's subject).",
+    shards={"quick": 16, "thorough": 16},
+    require_counts=["todo:Keep", "todo:Repack", "todo:MarkDelete", "todo:KeepMarked", "todo:Delete", "todo:Recover", "todo:unreferenced-pack", "stale_backup_needs_recover"],
+    )
